@@ -123,6 +123,39 @@ def build(tier="quick", seed=0):
         pack.add(Obligation(name, lambda tier, name=name, th=th, judge=judge: prove_paths(name, th, judge, lambda m, p: {"ftype": typename, "x": model_value(m, x) if m is not None else 0}),
                             replay=lambda w, typename=typename: {"call": "c05_range", "args": {"ftype": typename.replace("[]", ""), "x": w.get("x") or 0}}, functions=FU))
 
+    # ---- A2. the value offered is already a field value of ANOTHER integer type (taken from another record): the target's range still decides
+    RANGES = {"uint16": 0xFFFF, "uint32": 0xFFFFFFFF, "net.tcp.Port": 0xFFFF, "net.udp.Port": 0xFFFF, "boolean": 1, "varint": None, "filesize": None}
+    for src_t, dst_t in (("uint32", "uint16"), ("uint32", "net.tcp.Port"), ("varint", "uint16"), ("varint", "uint32"), ("uint16", "boolean"), ("net.tcp.Port", "boolean"), ("uint32", "uint16[]"), ("uint16", "uint32")):
+        name = f"C05.range[{dst_t} <- a {src_t} field value]"
+
+        def th(src_t=src_t, dst_t=dst_t):
+            S = it.call(RD, ["c05/src", [(src_t, "v")]], {})
+            D = it.call(RD, ["c05/rec", [(dst_t, "x"), ("varint", "n")]], {})
+            if RANGES[src_t] is not None:
+                it.assume(z3.And(x >= 0, x <= RANGES[src_t]))
+            src = it.call(S, [], {"v": SInt(x)}).attrs["v"]  # a value object of the source type
+            rec = it.call(D, [], {"n": 1})
+            before = snapshot(rec)
+            try:
+                it.setattr_(rec, "x", [src] if dst_t.endswith("[]") else src)
+                return "accepted", well_typed(rec, "x", dst_t), packable(rec), rec
+            except PyRaise as e:
+                return "rejected", e.cls_name, snapshot(rec) == before, rec
+
+        def judge(p, dst_t=dst_t):
+            hi = RANGES[dst_t.replace("[]", "")]
+            r = p.value
+            if r[0] == "accepted":
+                if r[1] or r[2]:
+                    return False, f"accepted value is not well typed / packable: {r[1] or r[2]}"
+                v = r[3].attrs["x"]
+                stored = it.zint(v.base[0] if dst_t.endswith("[]") else v)
+                return z3.And(x >= 0, x <= hi, stored == x), f"{dst_t} accepted a value outside 0..{hi} (or stored a different value)"
+            return z3.And(z3.Or(x < 0, x > hi), z3.BoolVal(bool(r[2]))), f"{dst_t} rejected a representable value or the rejected assignment changed the record (unchanged: {r[2]})"
+
+        pack.add(Obligation(name, lambda tier, name=name, th=th, judge=judge: prove_paths(name, th, judge, lambda m, p: {"x": model_value(m, x) if m is not None else 0}),
+                            replay=lambda w, src_t=src_t, dst_t=dst_t: {"call": "c05_cross_value", "args": {"src_type": src_t, "dst_type": dst_t, "x": w.get("x") or 0}}, functions=FU))
+
     # ---- B. symbolic text into string-like fields; symbolic int into varint-like fields: always accepted, typed, value preserved, packable
     sv = z3.String("s")
     ENCODABLE = z3.Star(z3.Union(z3.Range(chr(0), chr(0xD7FF)), z3.Range(chr(0xDC80), chr(0xDCFF)), z3.Range(chr(0xE000), chr(0x2FFFF))))
@@ -137,6 +170,28 @@ def build(tier="quick", seed=0):
 
         pack.add(Obligation(name, lambda tier, name=name, th=th: prove_paths(name, th, lambda p: (p.value is None, f"an accepted text value cannot be serialised: {p.value}"), lambda m, p: {"ftype": typename, "s": model_value(m, sv) if m is not None else ""}),
                             replay=lambda w, typename=typename: {"call": "c05_expect", "args": {"ftype": typename, "src": repr([w.get("s") or ""]) if typename.endswith("[]") else repr(w.get("s") or ""), "valid": True}}, functions=FU))
+    # ... and by the JSON writer, line by line or indented, onto a text file opened the way the writer opens it
+    jfm = L.import_module("flow.record.adapter.jsonfile")
+    for typename in ("string", "uri", "string[]"):
+        for indent in (None, 2):
+            name = f"C05.writable[json{'' if indent is None else ' indent=2'}, {typename}, any text]"
+
+            def th(typename=typename, indent=indent):
+                it.vfs, it.vfs_auto, it.vfs_events, it.vfs_dirs = {}, True, [], set()
+                D = it.call(RD, ["c05/rec", [(typename, "x"), ("varint", "n")]], {})
+                rec = it.call(D, [], {"n": 1})
+                it.assume(z3.InRe(sv, ENCODABLE))
+                it.setattr_(rec, "x", [SStr(sv)] if typename.endswith("[]") else SStr(sv))
+                try:
+                    w = it.call(jfm.g["JsonfileWriter"], ["/abs/out.json"], {"indent": indent})
+                    it.call(it.getattr_(w, "write"), [rec], {})
+                    it.call(it.getattr_(w, "close"), [], {})
+                    return None
+                except PyRaise as e:
+                    return f"the JSON writer raised {e.cls_name}: {e}"
+
+            pack.add(Obligation(name, lambda tier, name=name, th=th: prove_paths(name, th, lambda p: (p.value is None, f"an accepted text value cannot be written: {p.value}"), lambda m, p: {"s": model_value(m, sv) if m is not None else ""}),
+                                replay=lambda w, typename=typename, indent=indent: {"call": "c05_json_writable", "args": {"ftype": typename, "src": repr([w.get("s") or ""]) if typename.endswith("[]") else repr(w.get("s") or ""), "indent": indent}}, functions=FU))
     for typename in ("string", "wstring", "uri", "string[]", "stringlist", "dynamic"):
         name = f"C05.accept[{typename}]"
 
